@@ -193,7 +193,12 @@ impl Property for P {
             1 => gen::long_text(mix).prop_map(Some),
             1 => gen::scaled_text_and_width(mix, 1200).prop_map(|(t, _)| Some(t)),
         ];
-        (part(), part(), b, gen::optspec(og), any::<bool>())
+        // a: usually short; rarely one very long paragraph (several KiB)
+        let a = prop_oneof![
+            90 => part(),
+            1 => gen::scaled_text_and_width(mix, 4000).prop_map(|(t, _)| t),
+        ];
+        (a, part(), b, gen::optspec(og), any::<bool>())
             .prop_map(|(a, a2, b, spec, by_ref)| {
                 let b = b.unwrap_or_else(|| a.clone());
                 Case {
